@@ -26,7 +26,7 @@ func (*c03) Rule() string {
 
 func (k *c03) Setup(c *core.Ctx) (int, error) {
 	k.combos = c.N(8, 14)
-	return c.N(220, 2500), nil
+	return c.N(800, 6000), nil
 }
 
 func (*c03) Finish(c *core.Ctx) {
